@@ -653,6 +653,8 @@ def _o6(ctx, rel):
                    f"{sorted(DESIGNATED)}", rel, c.lineno, sample=dict(function=f.qualname, call=u(c)[:80]))
     col.floor("write_primitives", nprim, 3)
     history_header_rule(ctx, "O6")
+    from . import ckpt_table as CT
+    CT.check(ctx, "G10", "O13")
 
 
 def history_header_rule(ctx, clause: str, rule: str = "G10"):
